@@ -327,3 +327,57 @@ def c19_connect_check_then_create_race():
         return False, "connect survived the interleaving"
     except Exception as e:  # noqa: BLE001
         return True, f"connect() raised {type(e).__name__}: {str(e)[:90]} when another session attached the database between its check and its ATTACH"
+
+
+def _json_session():
+    from vf.real import real_cursor
+
+    fs, conn, cur = real_cursor(False)
+    cur.execute("create table t (v variant)")
+    cur.execute("""insert into t select parse_json('{"a":"x","n":5,"arr":["p","q"],"e":[],"k.d":"dot","o":{"c":"deep"}}')""")
+    return cur
+
+
+def c11_bracket_key_with_jsonpath_syntax():
+    cur = _json_session()
+    got = cur.execute("select v['k.d']::varchar from t").fetchall()
+    return got != [("dot",)] and got != [('"dot"',)], f"v['k.d'] -> {got!r} (the key \"k.d\" exists; the path is built as $.k.d)"
+
+
+def c11_array_size_empty_array():
+    cur = _json_session()
+    got = cur.execute("select array_size(v:e), array_size(v:arr) from t").fetchall()
+    return got[0][0] != 0, f"array_size of an empty array -> {got[0][0]!r} (Snowflake: 0); non-empty -> {got[0][1]!r}"
+
+
+def c11_cast_of_extraction_to_variant():
+    cur = _json_session()
+    try:
+        got = cur.execute("select v:a::variant from t").fetchall()
+        return got != [('"x"',)], f"v:a::variant -> {got!r}"
+    except Exception as e:  # noqa: BLE001
+        return True, f"v:a::variant raised {type(e).__name__}: {str(e)[:70]}"
+
+
+def c11_bracket_access_to_text_keeps_quotes():
+    cur = _json_session()
+    got = cur.execute("select v['a']::varchar, v:a::varchar, trim(v['a']) from t").fetchall()[0]
+    return got[0] != got[1], f"v['a']::varchar -> {got[0]!r} but v:a::varchar -> {got[1]!r}; trim(v['a']) -> {got[2]!r}"
+
+
+def c11_variant_compared_with_string_literal():
+    cur = _json_session()
+    try:
+        got = cur.execute("select v:a = 'x' from t").fetchall()
+        return got != [(True,)], f"v:a = 'x' -> {got!r}"
+    except Exception as e:  # noqa: BLE001
+        return True, f"v:a = 'x' raised {type(e).__name__}: {str(e)[:70]}"
+
+
+def c11_nested_bracket_access():
+    cur = _json_session()
+    try:
+        got = cur.execute("select v['arr'][1]::varchar, v['o']['c']::varchar from t").fetchall()
+        return False, f"-> {got!r}"
+    except Exception as e:  # noqa: BLE001
+        return True, f"v['arr'][1] raised {type(e).__name__}: {str(e)[:70]}"
